@@ -281,7 +281,8 @@ class Spec:
         return v
 
     def key(self, S):
-        return (tuple((n, tuple(sorted(S.m[n]))) for n in sorted(S.m)), tuple(sorted(S.known)), canon(vars(S.store)))
+        return (tuple((n, tuple(sorted(S.m[n]))) for n in sorted(S.m)), tuple(sorted(S.known)), canon(vars(S.store)),
+                canon(vars(S.c)), canon({n: vars(g) for n, g in S.old_views.items()}))
 
     def model_key(self, S):
         return (tuple((n, tuple(sorted(S.m[n]))) for n in sorted(S.m)), tuple(sorted(S.known)))
